@@ -902,7 +902,9 @@ func (c *c10World) opSetWhole(h *c10Handle, tg *c10Target) bool {
 	op := fmt.Sprintf("%s.SetByPath %s = whole container of %d (node fetched from another message)", h.name, tg, n)
 	w.NextOp(op)
 	w.opFacts = facts
+	unguard := c.gcGuard(h, true) // an insertion: the not-found pointer may sit one past the buffer (see gcGuard)
 	exist, err := h.v.SetByPath(src.Fork().Node, tg.path()...)
+	unguard()
 	w.opFacts = nil
 	if err != nil {
 		w.Failf("valid-op-rejected:"+shape, facts, "%s returned an error: %v", op, err)
